@@ -166,7 +166,7 @@ def judge(t):
                 if h is None or h.get('o', 'ok') != 'ok':
                     continue
                 v_ = (h.get('variants') or {}).get(name, 'ok')
-                if v_ in ('lex', 'lexpct', 'syntax', 'forbidden', 'cut', 'cutmacro', 'empty', 'dupsym', 'dupsymfwd', 'unkparent'):
+                if v_ in ('lex', 'lexpct', 'syntax', 'forbidden', 'cut', 'cutmacro', 'empty', 'dupsym', 'dupsymfwd', 'unkparent', 'augunk'):
                     continue          # this copy cannot be loaded: the next source is tried
                 if v_ != 'ok':
                     want = None       # a copy whose defect may or may not stop loading: not judged
